@@ -468,14 +468,25 @@ impl TropicalSubgraphTable {
         let j = uniform.from_f64(self.table[subgraph.id].j_function);
 
         let mut cum_sum = uniform.zero();
+        let mut last_edge = None;
         for edge in edges_in_subgraph {
             let graph_without_edge = subgraph.pop_edge(edge);
+            last_edge = Some((edge, graph_without_edge));
             let p_e = uniform.from_f64(self.table[graph_without_edge.id].j_function)
                 / &j
                 / uniform.from_f64(self.table[graph_without_edge.id].generalized_dod);
             cum_sum += &p_e;
             if &cum_sum >= uniform {
                 return (edge, graph_without_edge);
+            }
+        }
+
+        // The probabilities sum to one only up to rounding: for `uniform` within rounding
+        // distance of 1 the running sum can end below it. Every uniform in [0,1) selects an
+        // edge, so fall back to the last one; only uniform >= 1 (or an empty subgraph) panics.
+        if uniform < &uniform.one() {
+            if let Some(last) = last_edge {
+                return last;
             }
         }
 
